@@ -4,6 +4,7 @@ import Rare.Proofs.C18Dur
 import Rare.Proofs.C18RT
 import Rare.Proofs.C18Abbr
 import Rare.Proofs.C18Zone
+import Rare.Proofs.C18Cache
 import Rare.Gen.C18
 /-!
 # C18 – Time helpers agree with the calendar and round-trip
@@ -625,6 +626,138 @@ theorem mode_dispatch :
     ∧ modeOf timeFormats (asc "nginx") = .explicit (asc "_2/Jan/2006:15:04:05 -0700")
     ∧ modeOf timeFormats (asc "2006") = .explicit (asc "2006") := by
   decide
+
+/-! ## Round 4: the `cache` stage as a function of its history; key-words; compile-time checks; attributes -/
+
+/-- The round-1 step function is the current one for a date expression that yields the empty text
+without input (`{0}`). -/
+theorem cache_step_current (st str : Bytes) (det : Option Bytes) (f : Parsed → Out) :
+    cacheStep st str det f = cacheStepE [] st str det f :=
+  cacheStep_eq_E st str det f
+
+/-- Which call histories give which answers.  (1) Once a layout is remembered it never changes and
+every later text is answered with it, whatever `dateparse` would detect.  (2) Starting with nothing
+remembered, the memory after a history is the layout detected for the FIRST text that is non-empty,
+is not `emptyTime` (the value of the date expression without input: parsed, never remembered – the
+repairs cb6fa4b / 3acd3a0 / 6998c9c) and has a detectable format; there is none iff nothing is
+remembered. -/
+theorem cache_history (e : Bytes) (xs : List Inp) :
+    (∀ st, st ≠ [] → cacheState e st xs = st ∧ cacheRun e st xs = xs.map (answerWith st))
+    ∧ ((∀ x ∈ xs, x.2.1 ≠ some []) → cacheState e [] xs = firstRemembered e xs) :=
+  ⟨fun st hst => cache_sticky' e st hst xs, cache_state_first' e xs⟩
+
+/-- Order independence (what makes the lock-free memory safe): when every non-empty text of a history
+has the same detected layout `L` and none is `emptyTime`, each answer depends on its own text only –
+so any order, and any interleaving of concurrent evaluations, gives the same answers (checked on the
+real stage from 8 goroutines: op `seqpar`).  Without the hypotheses the answers do depend on the
+order: see the example after it. -/
+theorem cache_order_independent (e L : Bytes) (hL : L ≠ []) (xs : List Inp)
+    (h : ∀ x ∈ xs, x.1 ≠ e ∧ (x.1 ≠ [] → x.2.1 = some L)) :
+    cacheRun e [] xs = xs.map (answerWith L) :=
+  cache_order_independent' e L hL xs h [] (Or.inl rfl)
+
+/-- … and the order matters otherwise: two texts of different layouts answer differently depending on
+which comes first (the second one is parsed with the layout of the first). -/
+theorem cache_order_counterexample :
+    let f : Parsed → Out := unixOut .utc 0 []
+    let a : Inp := (asc "2016-04-14", some (asc "2006-01-02"), f)
+    let b : Inp := (asc "14/04/2016", some (asc "02/01/2006"), f)
+    cacheRun [] [] [a, b] = [.val (asc "1460592000"), .val errorParsing]
+    ∧ cacheRun [] [] [b, a] = [.val (asc "1460592000"), .val errorParsing] := by
+  decide +kernel
+
+/-- `{time now|live|delta}`: the key-words are recognised case-insensitively and exactly. -/
+theorem time_keyword_table :
+    [asc "now", asc "NOW", asc "Live", asc "delta", asc "DELTA", asc "nowx", asc "no", asc "", asc " now"].map timeKeyword
+      = [some .now, some .now, some .live, some .delta, some .delta, none, none, none, none]
+    ∧ (∀ w, timeKeyword w = some .now ↔ toLower w = asc "now") := by
+  refine ⟨by decide, fun w => ?_⟩
+  unfold timeKeyword
+  constructor
+  · intro h
+    by_cases h1 : toLower w = asc "now"
+    · exact h1
+    · simp only [h1, if_false] at h
+      split at h
+      · cases h
+      · split at h <;> cases h
+  · intro h; simp [h]
+
+/-- The argument-count windows of the six helpers (`<ARGN>` outside, checked first), and inside the
+window with a constant, known second argument and a loadable zone the stage is built. -/
+theorem compile_argcount :
+    ∀ e ∈ [("time", 1, 3), ("timeformat", 1, 3), ("duration", 1, 1), ("durationformat", 1, 1), ("buckettime", 2, 4), ("timeattr", 2, 3)],
+      ∀ argc c eo zo, ((argc < e.2.1 ∨ argc > e.2.2) → compileCheck e.1 argc c eo zo = some ("func.argcount", "<ARGN>"))
+        ∧ (e.2.1 ≤ argc → argc ≤ e.2.2 → c 1 = true → compileCheck e.1 argc c true true = none) := by
+  intro e he argc c eo zo
+  obtain ⟨fn, lo, hi⟩ := e
+  simp only [List.mem_cons, List.not_mem_nil, or_false, Prod.mk.injEq] at he
+  rcases he with ⟨a, b, d⟩ | ⟨a, b, d⟩ | ⟨a, b, d⟩ | ⟨a, b, d⟩ | ⟨a, b, d⟩ | ⟨a, b, d⟩ <;> subst a <;> subst b <;> subst d <;>
+    simp only [compileCheck, String.reduceEq, if_true, if_false, or_false, false_or, or_self] <;> constructor <;> intro h
+  all_goals first
+    | (rw [if_pos h]; done)
+    | (rw [if_pos (by omega)]; done)
+    | (intro h2 hc; rw [if_neg (by omega)]; simp [hc]; done)
+    | (intro h2 hc; rw [if_neg (by omega)]; done)
+
+/-- The bucket and attribute names must be constants (`<CONST>`) of the enumeration (`<ENUM>`); an
+unknown zone gives `<PARSE-ERROR>` – for `timeattr` before the enumeration check, for `buckettime`
+after it (the order of the checks in the source). -/
+theorem compile_checks_order :
+    compileCheck "buckettime" 4 (fun _ => false) false false = some ("func.const", "<CONST>")
+    ∧ compileCheck "buckettime" 4 (fun _ => true) false false = some ("func.enum", "<ENUM>")
+    ∧ compileCheck "buckettime" 4 (fun _ => true) true false = some ("func.parsing", "<PARSE-ERROR>")
+    ∧ compileCheck "timeattr" 3 (fun _ => false) false false = some ("func.const", "<CONST>")
+    ∧ compileCheck "timeattr" 3 (fun _ => true) false false = some ("func.parsing", "<PARSE-ERROR>")
+    ∧ compileCheck "timeattr" 3 (fun _ => true) false true = some ("func.enum", "<ENUM>") := by
+  decide
+
+/-- Every attribute name, in any letter case: weekday 0..6 (Sunday = 0), ISO week 1..53 WITHOUT zero
+padding, `yearweek` = ISO year `-` ISO week (the ISO week-numbering year, not the calendar year),
+quarter 1..4; any other name is not an attribute (`<ENUM>` at compile time) – and only those. -/
+theorem timeattr_spec (name : Bytes) (unix off : Int) :
+    (toUpper name = asc "WEEKDAY" → timeAttr name unix off = some (itoa (weekday (localDays unix off))))
+    ∧ (toUpper name = asc "WEEK" → timeAttr name unix off = some (itoa (isoYearWeek (localDays unix off)).2))
+    ∧ (toUpper name = asc "YEARWEEK" → timeAttr name unix off =
+        some (itoa (isoYearWeek (localDays unix off)).1 ++ [45] ++ itoa (isoYearWeek (localDays unix off)).2))
+    ∧ (toUpper name = asc "QUARTER" → timeAttr name unix off = some (itoa (quarter (civilOf unix off).m)))
+    ∧ (timeAttr name unix off = none ↔ toUpper name ∉ attrKeys) := by
+  have hq := timeattr_quarter unix off
+  have hq' : timeAttr (asc "quarter") unix off = some (itoa (quarterExpr (civilFromDays (localDays unix off)).m)) := rfl
+  refine ⟨fun h => ?_, fun h => ?_, fun h => ?_, fun h => ?_, ?_⟩
+  · simp only [timeAttr, h, if_true]
+  · simp only [timeAttr, h, show asc "WEEK" ≠ asc "WEEKDAY" from by decide, if_false, if_true]
+  · simp only [timeAttr, h, show asc "YEARWEEK" ≠ asc "WEEKDAY" from by decide, show asc "YEARWEEK" ≠ asc "WEEK" from by decide,
+      if_false, if_true]
+  · rw [← hq, hq']
+    simp only [timeAttr, h, show asc "QUARTER" ≠ asc "WEEKDAY" from by decide, show asc "QUARTER" ≠ asc "WEEK" from by decide,
+      show asc "QUARTER" ≠ asc "YEARWEEK" from by decide, if_false, if_true]
+  · have d1 : asc "WEEK" ≠ asc "WEEKDAY" := by decide
+    have d2 : asc "YEARWEEK" ≠ asc "WEEKDAY" := by decide
+    have d3 : asc "YEARWEEK" ≠ asc "WEEK" := by decide
+    have d4 : asc "QUARTER" ≠ asc "WEEKDAY" := by decide
+    have d5 : asc "QUARTER" ≠ asc "WEEK" := by decide
+    have d6 : asc "QUARTER" ≠ asc "YEARWEEK" := by decide
+    simp only [timeAttr, attrKeys, List.mem_cons, List.not_mem_nil, or_false]
+    by_cases h1 : toUpper name = asc "WEEKDAY"
+    · simp [h1]
+    · by_cases h2 : toUpper name = asc "WEEK"
+      · simp [h2, d1]
+      · by_cases h3 : toUpper name = asc "YEARWEEK"
+        · simp [h3, d2, d3]
+        · by_cases h4 : toUpper name = asc "QUARTER"
+          · simp [h4, d4, d5, d6]
+          · simp [h1, h2, h3, h4]
+
+/-- The boundary of `duration_roundtrip` is exact: one second further the product
+`time.Duration(secs) * time.Second` wraps and `durationformat` prints a NEGATIVE duration (Go's
+int64 arithmetic, mirrored; same in the real code, op `durf`). -/
+theorem duration_roundtrip_boundary :
+    durationFormat (asc "9223372036") = .val (asc "2562047h47m16s")
+    ∧ duration (asc "2562047h47m16s") = .val (asc "9223372036")
+    ∧ durationFormat (asc "9223372037") = .val (asc "-2562047h47m16.709551616s")
+    ∧ durationFormat (asc "-9223372037") = .val (asc "2562047h47m16.709551616s") := by
+  decide +kernel
 
 /-! ## Non-vacuity: the hypotheses hold on concrete, non-trivial values -/
 
